@@ -21,6 +21,8 @@ against it.
 import copy
 import json
 import os
+import shutil
+import tempfile
 
 os.environ.setdefault('TREADMILL_HOSTNAME', 'verifhost')
 
@@ -34,6 +36,7 @@ from pbt.run import Violation  # noqa: E402
 from treadmill import presence  # noqa: E402
 from treadmill import utils  # noqa: E402
 from treadmill.services import presence_service  # noqa: E402
+from treadmill.services import _base_service  # noqa: E402
 
 PROID = 'proid'
 APP = 'proid.app'
@@ -89,6 +92,13 @@ def host_names(case, stats, used=3):
         if not substr:
             stats.count('cases_hosts_unrelated')
     return names
+
+
+# service directories of a case: a handful of tiny files per case, 40 000
+# cases per run - on the disk behind /tmp that costs ~25 ms per case, on tmpfs
+# 0.4 ms
+_TMP_BASE = '/dev/shm' if (os.path.isdir('/dev/shm') and
+                           os.access('/dev/shm', os.W_OK | os.X_OK)) else None
 
 
 class HarnessError(Exception):
@@ -342,6 +352,8 @@ class Callback(object):
         self.prev = {}         # path -> (claimant, rid in regs) before us
         self.fault_path = None
         self.faulted = False   # a ConnectionLoss was injected into it
+        self.replayed = False  # create event faked at start-up for a request
+        #                        that already has a reply (granted earlier)
 
 
 class Host(object):
@@ -358,6 +370,11 @@ class Host(object):
         self.ext_deleted = set()
         self.client = None
         self.svc = None
+        # the on-disk part of ResourceService: <svc_dir>/resources/<rid> is a
+        # symlink to the client's request directory (request.yml, reply.yml);
+        # it outlives the service process and its ZooKeeper session
+        self.svc_dir = os.path.join(world.root, 'svc%d' % idx)
+        self.rsrc_dir = os.path.join(self.svc_dir, _base_service.RSRC_DIR)
         self.new_session()
 
     def new_session(self):
@@ -370,6 +387,8 @@ class Host(object):
     def new_service(self):
         self.svc = SimPresenceService(self, self.client)
         self.client.owner_svc = self.svc
+        # LinuxResourceService._run: impl.initialize(service_dir)
+        self.svc.initialize(self.svc_dir)
         self.claims = {}
         self.regs = {}
         self.last_result = {}
@@ -382,9 +401,46 @@ class Host(object):
             cur.trace.append((opname, path))
             self.world.main.switch()
 
+    # -- request / reply files (ResourceServiceClient + ResourceService) -----
+    def rep_file(self, rid):
+        return os.path.join(self.rsrc_dir, rid, _base_service.REP_FILE)
+
+    def put_request(self, rid, data):
+        """ResourceServiceClient.put of a new request: request directory with
+        request.yml (JSON is YAML), linked into the service's resource dir."""
+        req_dir = os.path.join(self.world.root, 'apps', rid)
+        os.makedirs(req_dir)
+        with open(os.path.join(req_dir, _base_service.REQ_FILE), 'w') as fil:
+            fil.write('--- ' + json.dumps(data, sort_keys=True) + '\n...\n')
+        os.symlink(req_dir, os.path.join(self.rsrc_dir, rid))
+
+    def del_request(self, rid):
+        """ResourceServiceClient.delete: clt_del_request drops the link."""
+        try:
+            os.unlink(os.path.join(self.rsrc_dir, rid))
+        except FileNotFoundError:
+            pass
+
+    def write_reply(self, rid, result):
+        """ResourceService._on_created: a result other than None is written
+        to reply.yml - the request is answered (granted, or _error)."""
+        if result is None or not os.path.isdir(
+                os.path.join(self.rsrc_dir, rid)):
+            return
+        with open(self.rep_file(rid), 'w') as fil:
+            fil.write('--- ' + json.dumps(result, sort_keys=True) + '\n...\n')
+
+    def drop_reply(self, rid):
+        """_linux_base_service._update_request: remove any reply."""
+        try:
+            os.unlink(self.rep_file(rid))
+        except (FileNotFoundError, NotADirectoryError):
+            pass
+
     def retry(self, svc, rid):
         if svc is not self.svc or self.client.expired:
             return
+        self.drop_reply(rid)
         if rid not in self.requests:
             return
         self.last_result.pop(rid, None)
@@ -402,6 +458,7 @@ class World(object):
         self.tree = fakezk.Tree(lambda: self.clock[0])
         self.tree.queue_watches = True
         self.main = greenlet.getcurrent()
+        self.root = tempfile.mkdtemp(prefix='c17-', dir=_TMP_BASE)
         self.master = fakezk.Client(self.tree)      # master + admin actor
         for path in ('/servers', '/server.presence', '/placement',
                      '/scheduled', '/running', '/endpoints',
@@ -443,8 +500,11 @@ class World(object):
     def close(self):
         utils.sys_exit = self.saved_exit
         kazoo.retry.KazooRetry = self.saved_retry
-        for host in self.hosts:
-            self._kill_current(host)
+        try:
+            for host in self.hosts:
+                self._kill_current(host)
+        finally:
+            shutil.rmtree(self.root, ignore_errors=True)
 
     def retry_sleep(self, seconds):
         """KazooRetry's sleep_func: virtual time passes and the harness gets
@@ -480,6 +540,12 @@ class World(object):
         if cur is None or greenlet.getcurrent() is not cur.glet:
             return
         cur.obs.append((opname, path, outcome))
+        if cur.replayed and outcome == 'foreign' and path in cur.paths:
+            # a request granted by an earlier run of the service finds its
+            # node owned by somebody else's session when it is replayed
+            if 'replay-granted-foreign' not in self.flags:
+                self.stats_count('cases_replayed_granted_met_foreign_node')
+            self.flags.add('replay-granted-foreign')
         if cur.kind == 'create' and path in cur.paths:
             if outcome in ('ok', 'own'):
                 regs = host.regs.setdefault(path, [])
@@ -532,6 +598,7 @@ class World(object):
         self._skip_master_audit()
         # presence_client.put(): request dir + "created" event
         host.requests[rid] = data
+        host.put_request(rid, data)
         host.queue.append(('create', rid))
         self.stats_count('op_new')
         return rid
@@ -554,6 +621,7 @@ class World(object):
         host = self.containers[rid]['host']
         self.deleted.add(rid)
         host.requests.pop(rid, None)
+        host.del_request(rid)
         host.last_result.pop(rid, None)
         host.queue.append(('delete', rid))
 
@@ -689,6 +757,11 @@ class World(object):
             if kind == 'create':
                 data = copy.deepcopy(host.requests[rid])
                 svc = host.svc
+                if os.path.exists(host.rep_file(rid)):
+                    # only a start-up replay meets a reply: a new request has
+                    # none and retry_request removes it
+                    cur.replayed = True
+                    self.stats_count('callbacks_create_replayed_answered')
 
                 def body(svc=svc, rid=rid, data=data):
                     utils.validate(data, svc.PAYLOAD_SCHEMA)
@@ -722,6 +795,8 @@ class World(object):
                 except Exception as err:  # pylint: disable=broad-except
                     cur.result = {'_error': {'why': '%s: %s' % (
                         type(err).__name__, err)}}
+                if cur.kind == 'create' and not cur.crashed:
+                    cur.host.write_reply(cur.rid, cur.result)
                 cur.done = True
 
             cur.glet = greenlet.greenlet(run, parent=self.main)
